@@ -220,6 +220,18 @@ Proof.
       (rewrite m_bind_eq, m_bind_eq, m_bind_eq; unfold py_root_solver; rewrite m_bind_eq; cbn [cl_call cl_minus]; rewrite HC; reflexivity).
 Qed.
 
+(* the FKDE complement of C19_bridge_query_ppf (Props/C19.v, stated for s_fam s <> FKDE): when no instance-level attribute shadows
+   the method, the model's query_scipy answers with class_query, and kde_ppf_spec is that observation applied to the probe *)
+Theorem C19_bridge3_query_ppf_kde : forall O s n g U method, s_fam s = FKDE ->
+  ov_ppf (s_ov s) = false -> ov_cdf (s_ov s) = false -> (has_valid (a_vals U) = true \/ s_model s <> None) ->
+  query_scipy s QPpf n g = (s, g, class_query s QPpf) /\
+  gen_GaussianKDE_percent_point O U method (s, RsGlobal g) = ((s, RsGlobal g), kde_ppf_spec s U method).
+Proof.
+  intros O s n g U method HF HP HC HV. split.
+  - unfold query_scipy, overridden. rewrite HP. reflexivity.
+  - apply C19_bridge3_kde_ppf; assumption.
+Qed.
+
 (* `method` defaults to the solver the model's lanes name when the caller does not choose *)
 Theorem C19_bridge3_kde_ppf_default_method : solver_of gen_GaussianKDE_percent_point_default_method = "chandrupatla".
 Proof. reflexivity. Qed.
@@ -346,6 +358,7 @@ Print Assumptions C19_kde_bounds_real.
 Print Assumptions C19_bridge3_kde_cdf.
 Print Assumptions C19_bridge3_query_cdf_kde.
 Print Assumptions C19_bridge3_kde_ppf.
+Print Assumptions C19_bridge3_query_ppf_kde.
 Print Assumptions C19_bridge3_kde_ppf_default_method.
 Print Assumptions C19_kde_ppf_boundary_only.
 Print Assumptions C19_kde_routing_real.
